@@ -1337,6 +1337,19 @@ func (e *Engine) doGo(fr *frame, in *ssa.Go) {
 			if strings.HasSuffix(n, ".janitor") || strings.HasSuffix(n, ".reportItemsCount") ||
 				strings.Contains(n, ".janitor$bound") || strings.Contains(n, ".reportItemsCount$bound") {
 				e.skippedGo[n]++
+				if strings.Contains(n, ".janitor") {
+					// remember on which Trait the constructor started its janitor: verifJanitorCycle runs
+					// one cleanup cycle on exactly that receiver
+					var recv Value
+					if len(c.Args) > 0 {
+						recv = e.get(fr, c.Args[0])
+					} else if len(g.fv.Bind) > 0 {
+						recv = g.fv.Bind[0]
+					}
+					if recv != nil {
+						e.janitors = append(e.janitors, recv)
+					}
+				}
 				return
 			}
 		}
@@ -1344,11 +1357,11 @@ func (e *Engine) doGo(fr *frame, in *ssa.Go) {
 	for _, a := range c.Args {
 		g.args = append(g.args, e.get(fr, a))
 	}
-	if e.ev != nil {
+	if e.ev != nil && e.ev.active {
 		e.evGo(fr, g)
 		return
 	}
-	e.pending = append(e.pending, g)
+	e.pending = append(e.pending, g) // sequential mode, or the sequential setup of a concurrent harness
 }
 
 // runPending runs queued goroutines to completion (sequential mode).
